@@ -150,7 +150,7 @@ theorem created_handle_fresh (s : FS) (c : Choice) (dfh name : Bytes) (kind : Na
 example : Dead (mkfs true 100000) (mkFh 5 0) := by decide
 example : resolve (mkfs true 100000) (mkFh 1 1) = some 1 := by decide
 
-/-! ### a handle another client was given survives a crash (model M11) -/
+/-! ### a handle another client was given survives a crash (model M14) -/
 
 /-- Keys: the entries of a directory; values: the handles they map to.  Under the discipline of
     `fstxn.commitWait` (locks are given back only after the flush; validated on every recorded
